@@ -37,6 +37,8 @@ package main
 //	math.Abs/Max/Min/Hypot/Sqrt/Cos/Sin/Pi ↦ rat: absR, max; rnum: RNum.abs, …
 //	math.Inf(1); math.Min(d, x)       ↦ none : Option α; Go.minInf d x  (d a variable initialised with math.Inf(1))
 //	f(args), x.m(args) (listed below) ↦ (← f' …)
+//	f(g geom.Geom) with `switch g.(type)` ↦ one function per listed case T: the statements around the switch with the body
+//	                                    of `case T:` in its place, g a T, g.(T) ↦ g; a call f(x) with x of static type T ↦ case T
 //	for i, x := range xs { S } with return/continue in S, followed by R
 //	                                  ↦ let c ← Go.forRangeRet xs st (fun st i x => do S'), return e ↦ pure (.ret e),
 //	                                    continue / end of S ↦ pure (.next st); match c with | .ret v => pure v | .next st => R
@@ -47,7 +49,8 @@ package main
 //	pointInPolygon(pt, pg, bounds)    ↦ (← Go.pointInPolygon pt pg bounds): the model of within.go of property C02
 //	                                    (GeomV.C02.pointInPolygon, regenerated from within.go by C02's extractor), WITH the
 //	                                    bounds slice that the code passes; a nil box is a fault
-//	pointsSimilar(a, b, e)            ↦ GeomV.C03.pointsSimilar e a b   (similar.go; model)
+//	for i, n := lo, E; i < n; i++ { S } ↦ let n := E; Go.forLt lo n …; with return in S: Go.forLtRet (as forRangeRet)
+//	a && b, a || b with a faulting b  ↦ (← Go.andAlso a (do pure b)), (← Go.orElse a (do pure b))   (b runs only when a does not decide)
 //	Outside, Inside, OnEdge           ↦ Side.outside, Side.inside, Side.onEdge
 //
 // Statement groups rendered as ONE model operation, by a structural match that refuses anything else
@@ -62,7 +65,10 @@ package main
 //	in the range guard `if kx, ky := centroidScale(…); … { … }` at the head of Polygon.Centroid / MultiPolygon.Centroid:
 //	  x.Centroid() (the function itself, on the rescaled copy)  ↦ (← <name>_core x): the loops below the guard
 //	  return Point{X: c.X * kx, Y: c.Y * ky}                    ↦ pure (unscale kx ky c)
-//	  the rest of the guard is translated statement by statement; op.Centroid's inline guard is cut off (not regenerated)
+//	  the rest of the guard is translated statement by statement
+//	op.Centroid, case geom.Polygon: `var A, xA, yA float64` + the last two statements of the clause = op_Centroid_core; the
+//	  statements before them = the inline guard: `kx, ky := 1., 1.` + the two axis-scale blocks (compared as text) ↦
+//	  kx := axisScale mx; ky := axisScale my;  c, err := Centroid(q) ↦ c := (← op_Centroid_core q);  return Point{…}, err ↦ unscale
 
 import (
 	"fmt"
@@ -97,10 +103,15 @@ var fns = []fnInfo{
 	{"area.go", "", "signedarea", "signedarea", false, ""},
 	{"op/properties.go", "", "area", "op_area", false, ""},
 	{"op/properties.go", "", "Centroid", "op_Centroid", false, "opcentroid"},
+	{"op/properties.go", "", "Area", "op_Area_Polygon", false, "case:Polygon"},
+	{"op/properties.go", "", "Area", "op_Area_MultiPolygon", false, "case:MultiPolygon"},
 	{"area.go", "", "centroidAxisScale", "centroidAxisScale", false, "axisscale"},
 	{"area.go", "", "centroidScale", "centroidScale", false, ""},
 	{"area.go", "Polygon", "scaled", "polygon_scaled", false, ""},
 	{"area.go", "Polygon", "Centroid", "polygon_Centroid", false, "centroid"},
+	{"similar.go", "", "similar", "similar", false, ""},
+	{"similar.go", "", "pointSimilar", "pointSimilar", false, ""},
+	{"similar.go", "", "pointsSimilar", "pointsSimilar", false, ""},
 	{"area.go", "", "area", "area", false, ""},
 	{"area.go", "Polygon", "Area", "polygon_Area", false, ""},
 	{"area.go", "Polygon", "ringBounds", "polygon_ringBounds", false, ""},
@@ -109,6 +120,8 @@ var fns = []fnInfo{
 	{"bounds.go", "*Bounds", "Area", "bounds_Area", false, ""},
 	{"bounds.go", "*Bounds", "Centroid", "bounds_Centroid", false, ""},
 	{"op/properties.go", "", "length", "op_length", true, ""},
+	{"op/properties.go", "", "Length", "op_Length_LineString", true, "case:LineString"},
+	{"op/properties.go", "", "Length", "op_Length_MultiLineString", true, "case:MultiLineString"},
 	{"linestring.go", "LineString", "Length", "lineString_Length", true, ""},
 	{"multilinestring.go", "MultiLineString", "Length", "multiLineString_Length", true, ""},
 	{"simplify.go", "", "pointSubtract", "pointSubtract", true, ""},
@@ -268,6 +281,23 @@ func lookupFn(pkg, recv, name string) *fnInfo {
 // the constants of type WithinStatus
 var withinConst = map[string]string{"Outside": "Side.outside", "Inside": "Side.inside", "OnEdge": "Side.onEdge"}
 
+// a function f(g geom.Geom) that switches on the dynamic type of g is regenerated once per listed case; a call f(x)
+// with x of static type T is the case T
+func lookupCase(fi *fnInfo, argType string) *fnInfo {
+	if fi == nil || !strings.HasPrefix(fi.ret, "case:") {
+		return fi
+	}
+	for i := range fns {
+		if fns[i].pkg() == fi.pkg() && fns[i].recv == "" && fns[i].name == fi.name && fns[i].ret == "case:"+argType {
+			return &fns[i]
+		}
+	}
+	xfail("call of %s on a %q, a case that is not regenerated", fi.name, argType)
+	return nil
+}
+
+var paramTypes = map[string][]string{} // lean name -> Go types of receiver and parameters
+
 var variadic = map[string]bool{} // lean name -> its last parameter is variadic
 
 var resultType = map[string]string{} // lean name -> Go result type, filled while translating
@@ -350,14 +380,15 @@ func (t *tr) typeOf(e ast.Expr) string {
 			return "*Bounds"
 		case "pointInPolygon":
 			return "WithinStatus"
-		case "pointsSimilar":
-			return "bool"
 		}
 		if strings.HasPrefix(tn, "math.") {
 			return "float64"
 		}
 		if id, ok := x.Fun.(*ast.Ident); ok {
 			if fi := lookupFn(t.fi.pkg(), "", id.Name); fi != nil {
+				if strings.HasPrefix(fi.ret, "case:") && len(x.Args) == 1 {
+					fi = lookupCase(fi, t.typeOf(x.Args[0]))
+				}
 				return resultType[fi.lean]
 			}
 		}
@@ -428,7 +459,11 @@ func (t *tr) expr(e ast.Expr, want string) string {
 		case token.LAND, token.LOR:
 			a, b := t.expr(x.X, "bool"), t.expr(x.Y, "bool")
 			if hasFault(b) {
-				xfail("faulting operand on the right of %s (short-circuit evaluation)", x.Op)
+				// short-circuit evaluation: the right operand runs (and may fault) only when the left one does not decide
+				if x.Op == token.LAND {
+					return "(← Go.andAlso " + a + " (do pure " + b + "))"
+				}
+				return "(← Go.orElse " + a + " (do pure " + b + "))"
 			}
 			return "(" + a + " " + x.Op.String() + " " + b + ")"
 		case token.ADD, token.SUB, token.MUL, token.QUO, token.REM:
@@ -544,7 +579,7 @@ func (t *tr) expr(e ast.Expr, want string) string {
 		return t.call(x)
 	case *ast.TypeAssertExpr:
 		// inside the `case geom.Polygon:` clause of the type switch on g, g.(geom.Polygon) is g
-		if id, ok := x.X.(*ast.Ident); ok && x.Type != nil && t.fi.ret == "opcentroid" && t.vars[id.Name] == typeName(x.Type) {
+		if id, ok := x.X.(*ast.Ident); ok && x.Type != nil && (t.fi.ret == "opcentroid" || strings.HasPrefix(t.fi.ret, "case:")) && t.vars[id.Name] == typeName(x.Type) {
 			return id.Name
 		}
 		xfail("type assertion")
@@ -715,17 +750,19 @@ func (t *tr) call(x *ast.CallExpr) string {
 			xfail("pointInPolygon with these arguments")
 		}
 		return "(← Go.pointInPolygon " + t.expr(x.Args[0], "") + " " + t.expr(x.Args[1], "") + " " + t.expr(x.Args[2], "") + ")"
-	case "pointsSimilar":
-		// similar.go: the model's function
-		if t.fi.pkg() != "geom" || len(x.Args) != 3 || elemType[t.typeOf(x.Args[0])] != "Point" || elemType[t.typeOf(x.Args[1])] != "Point" {
-			xfail("pointsSimilar with these arguments")
-		}
-		return "(GeomV.C03.pointsSimilar " + t.expr(x.Args[2], "float64") + " " + t.expr(x.Args[0], "") + " " + t.expr(x.Args[1], "") + ")"
 	}
 	var args []string
 	argsOf := func(fi *fnInfo) {
-		for _, a := range x.Args {
-			args = append(args, t.expr(a, t.typeOf(a)))
+		pt := paramTypes[fi.lean]
+		if fi.recv != "" && len(pt) > 0 {
+			pt = pt[1:]
+		}
+		for k, a := range x.Args {
+			want := t.typeOf(a)
+			if want == "" && k < len(pt) && !variadic[fi.lean] {
+				want = pt[k]
+			}
+			args = append(args, t.expr(a, want))
 		}
 	}
 	switch f := x.Fun.(type) {
@@ -734,6 +771,12 @@ func (t *tr) call(x *ast.CallExpr) string {
 			xfail("call of the variable %s", f.Name)
 		}
 		if fi := lookupFn(t.fi.pkg(), "", f.Name); fi != nil {
+			if strings.HasPrefix(fi.ret, "case:") {
+				if len(x.Args) != 1 {
+					xfail("call of %s with %d arguments", f.Name, len(x.Args))
+				}
+				fi = lookupCase(fi, t.typeOf(x.Args[0]))
+			}
 			argsOf(fi)
 			if variadic[fi.lean] && x.Ellipsis == token.NoPos {
 				// f(a, b) with f(xs ...T): the arguments are the elements of xs (only functions whose single parameter is variadic)
@@ -992,6 +1035,35 @@ func opAssign(s ast.Stmt, tok token.Token, lhs string) ast.Expr {
 	return a.Rhs[0]
 }
 
+// op.Centroid's inline form of centroidScale's two factors, compared as text:
+//
+//	kx, ky := 1., 1.
+//	if (mx >= 0x1p300 || (mx <= 0x1p-300 && mx > 0)) && !math.IsInf(mx, 0) { _, e := math.Frexp(mx); kx = math.Ldexp(1, e-1) }
+//	if (my >= 0x1p300 || … my …) { _, e := math.Frexp(my); ky = math.Ldexp(1, e-1) }
+//
+// is kx := axisScale mx; ky := axisScale my (Frexp/Ldexp over Rat = pow2Floor)
+func (t *tr) axisGroup(ss []ast.Stmt) bool {
+	if len(ss) < 3 || srcOf(ss[0]) != "kx, ky := 1., 1." {
+		return false
+	}
+	axisIf := func(m, k string) string {
+		return "if (" + m + " >= 0x1p300 || (" + m + " <= 0x1p-300 && " + m + " > 0)) && !math.IsInf(" + m + ", 0) {\n\t_, e := math.Frexp(" + m + ")\n\t" + k + " = math.Ldexp(1, e-1)\n}"
+	}
+	if srcOf(ss[1]) != axisIf("mx", "kx") || srcOf(ss[2]) != axisIf("my", "ky") {
+		xfail("the two blocks after `kx, ky := 1., 1.` are not the axis-scale blocks: `%s` `%s`", srcOf(ss[1]), srcOf(ss[2]))
+	}
+	if t.vars["mx"] != "float64" || t.vars["my"] != "float64" {
+		xfail("mx, my are not float64 variables")
+	}
+	if _, hides := t.vars["kx"]; hides {
+		xfail("kx hides a variable")
+	}
+	if _, hides := t.vars["ky"]; hides {
+		xfail("ky hides a variable")
+	}
+	return true
+}
+
 // Point{X: c.X * kx, Y: c.Y * ky} with c a centroid (FV × FV) and kx, ky float64 variables
 func (t *tr) isUnscale(e ast.Expr) (c, kx, ky string, ok bool) {
 	lit, isLit := e.(*ast.CompositeLit)
@@ -1147,6 +1219,12 @@ func (t *tr) block(ss []ast.Stmt, ind string, tail string, out *strings.Builder)
 	inLoop := t.loop != 0
 	for i := 0; i < len(ss); i++ {
 		s := ss[i]
+		if t.guard && t.fi.ret == "opcentroid" && t.loop == 0 && t.axisGroup(ss[i:]) {
+			fmt.Fprintf(out, "%slet kx := axisScale mx\n%slet ky := axisScale my\n", ind, ind)
+			t.vars["kx"], t.vars["ky"] = "float64", "float64"
+			i += 2
+			continue
+		}
 		if t.centroid {
 			if d, w, ok := t.accGroup(ss[i:]); ok {
 				fmt.Fprintf(out, "%slet acc := CAcc.add acc cx cy %s %s\n", ind, d, w)
@@ -1205,7 +1283,9 @@ func (t *tr) block(ss []ast.Stmt, ind string, tail string, out *strings.Builder)
 			}
 			t.rangeStmt(x, ind, out)
 		case *ast.ForStmt:
-			t.forStmt(x, ind, out)
+			if t.forStmt(x, ind, out, ss[i+1:], tail) {
+				return
+			}
 		case *ast.IfStmt:
 			if x.Init != nil {
 				// if v := e; c { … }: v is declared first (refused when it would hide a variable of the enclosing scope)
@@ -1288,6 +1368,16 @@ func (t *tr) block(ss []ast.Stmt, ind string, tail string, out *strings.Builder)
 			if resultType[t.fi.lean] == "float64,float64" && len(x.Results) == 2 && t.loop == 0 {
 				fmt.Fprintf(out, "%spure (%s, %s)\n", ind, t.expr(x.Results[0], "float64"), t.expr(x.Results[1], "float64"))
 				return
+			}
+			if t.guard && t.fi.ret == "opcentroid" && len(x.Results) == 2 && t.loop == 0 {
+				// return geom.Point{X: c.X * kx, Y: c.Y * ky}, err
+				if id, ok := x.Results[1].(*ast.Ident); ok && t.vars[id.Name] == "error" {
+					if c, kx, ky, ok := t.isUnscale(x.Results[0]); ok {
+						fmt.Fprintf(out, "%spure (unscale %s %s %s)\n", ind, kx, ky, c)
+						return
+					}
+				}
+				xfail("the range guard returns something else than geom.Point{X: c.X * kx, Y: c.Y * ky}, err")
 			}
 			if len(x.Results) != 1 {
 				xfail("return with %d results", len(x.Results))
@@ -1372,6 +1462,21 @@ func (t *tr) acc(st []string) []string {
 }
 
 func (t *tr) assign(x *ast.AssignStmt, ind string, out *strings.Builder) {
+	if t.guard && t.fi.ret == "opcentroid" && len(x.Lhs) == 2 && len(x.Rhs) == 1 && x.Tok == token.DEFINE {
+		// c, err := Centroid(q) with q a Polygon: the function itself on the rescaled copy, read as the loop below the guard
+		// (which returns no error)
+		c, ok1 := x.Lhs[0].(*ast.Ident)
+		e, ok2 := x.Lhs[1].(*ast.Ident)
+		call, ok3 := x.Rhs[0].(*ast.CallExpr)
+		if ok1 && ok2 && ok3 && isIdent(call.Fun, t.fi.name) && len(call.Args) == 1 && t.typeOf(call.Args[0]) == "Polygon" && call.Ellipsis == token.NoPos {
+			if _, hides := t.vars[c.Name]; hides || c.Name == "_" || e.Name == "_" || c.Name == e.Name {
+				xfail("targets of `c, err := %s(q)`", t.fi.name)
+			}
+			fmt.Fprintf(out, "%slet %s := (← %s_core %s)\n", ind, c.Name, t.fi.lean, t.expr(call.Args[0], ""))
+			t.vars[c.Name], t.vars[e.Name] = "centroid", "error"
+			return
+		}
+	}
 	if len(x.Lhs) == 2 && len(x.Rhs) == 1 && x.Tok == token.DEFINE && t.typeOf(x.Rhs[0]) == "float64,float64" {
 		// a, b := f() with f returning two float64
 		a, ok1 := x.Lhs[0].(*ast.Ident)
@@ -1565,10 +1670,10 @@ func (t *tr) rangeRet(x *ast.RangeStmt, ind string, out *strings.Builder, rest [
 }
 
 // for i := lo; i < hi; i++ { S }
-func (t *tr) forStmt(x *ast.ForStmt, ind string, out *strings.Builder) {
+func (t *tr) forStmt(x *ast.ForStmt, ind string, out *strings.Builder, rest []ast.Stmt, tail string) (consumedRest bool) {
 	in, ok := x.Init.(*ast.AssignStmt)
-	if !ok || in.Tok != token.DEFINE || len(in.Lhs) != 1 || len(in.Rhs) != 1 {
-		xfail("for loop whose init is not `i := lo`")
+	if !ok || in.Tok != token.DEFINE || len(in.Lhs) != len(in.Rhs) || len(in.Lhs) < 1 || len(in.Lhs) > 2 {
+		xfail("for loop whose init is not `i := lo` or `i, n := lo, hi`")
 	}
 	iv := in.Lhs[0].(*ast.Ident).Name
 	lo := t.expr(in.Rhs[0], "int")
@@ -1583,23 +1688,43 @@ func (t *tr) forStmt(x *ast.ForStmt, ind string, out *strings.Builder) {
 	if !ok || post.Tok != token.INC || !isIdent(post.X, iv) {
 		xfail("for loop whose post statement is not `%s++`", iv)
 	}
-	if containsExit(x.Body.List) {
-		xfail("return/continue/break/panic inside a for loop")
+	var hiExpr ast.Expr = cond.Y
+	nv := ""
+	if len(in.Lhs) == 2 {
+		// for i, n := lo, E; i < n; i++: n is evaluated once, before the loop
+		nv = in.Lhs[1].(*ast.Ident).Name
+		if !isIdent(cond.Y, nv) || nv == iv {
+			xfail("for loop `%s, %s := …` whose condition is not `%s < %s`", iv, nv, iv, nv)
+		}
+		if _, hides := t.vars[nv]; hides {
+			xfail("loop variable %s hides a variable", nv)
+		}
+		if identsOf(in.Rhs[1])[iv] || identsOf(in.Rhs[1])[nv] {
+			xfail("loop bound mentions the loop variables")
+		}
+		if ty := t.typeOf(in.Rhs[1]); ty != "" && ty != "int" {
+			xfail("loop bound of type %s", ty)
+		}
+		hiExpr = in.Rhs[1]
 	}
-	bound := identsOf(cond.Y)
+	bound := identsOf(hiExpr)
 	if bound[iv] {
 		xfail("loop bound mentions the counter")
 	}
-	hi := t.expr(cond.Y, "int")
+	hi := t.expr(hiExpr, "int")
 	if hasFault(hi) || hasFault(lo) {
 		xfail("faulting loop bound (evaluated once per iteration in Go)")
 	}
 	st := t.acc(assigned(x.Body.List, map[string]bool{}))
 	for _, n := range st {
 		t.assignable(n)
-		if n == iv || bound[n] {
+		if n == iv || n == nv || bound[n] {
 			xfail("loop body assigns %s, which the loop header reads", n)
 		}
+	}
+	exits := containsExit(x.Body.List)
+	if exits && t.loop != 0 {
+		xfail("a loop with return/continue inside another loop")
 	}
 	saved, savedFrozen := t.save(), t.frozen
 	t.frozen = map[string]bool{}
@@ -1611,7 +1736,26 @@ func (t *tr) forStmt(x *ast.ForStmt, ind string, out *strings.Builder) {
 	}
 	t.vars[iv] = "int"
 	t.frozen[iv] = true
+	if nv != "" {
+		fmt.Fprintf(out, "%slet %s := %s\n", ind, nv, hi)
+		hi = nv
+		t.vars[nv] = "int"
+		t.frozen[nv] = true
+	}
 	savedLoop := t.loop
+	if exits {
+		// a loop that returns: the statements after it are the `.next` arm
+		t.loop, t.ctlNext = 2, "pure (Go.Ctl.next "+tuple(st)+")"
+		fmt.Fprintf(out, "%slet ctl__ ← Go.forLtRet %s %s %s (fun %s %s => do\n", ind, lo, hi, tuple(st), stName(st), iv)
+		out.WriteString(unpack(st, ind+"  "))
+		t.block(x.Body.List, ind+"  ", "", out)
+		fmt.Fprintf(out, "%s  )\n", ind)
+		t.vars, t.frozen, t.loop, t.ctlNext = saved, savedFrozen, 0, ""
+		fmt.Fprintf(out, "%smatch ctl__ with\n%s| Go.Ctl.ret v__ => pure v__\n%s| Go.Ctl.next %s => do\n", ind, ind, ind, stName(st))
+		out.WriteString(unpack(st, ind+"  "))
+		t.block(rest, ind+"  ", tail, out)
+		return true
+	}
 	t.loop = 1
 	fmt.Fprintf(out, "%slet %s ← Go.forLt %s %s %s (fun %s %s => do\n", ind, stName(st), lo, hi, tuple(st), stName(st), iv)
 	out.WriteString(unpack(st, ind+"  "))
@@ -1619,6 +1763,7 @@ func (t *tr) forStmt(x *ast.ForStmt, ind string, out *strings.Builder) {
 	fmt.Fprintf(out, "%s  )\n", ind)
 	out.WriteString(unpack(st, ind))
 	t.vars, t.frozen, t.loop = saved, savedFrozen, savedLoop
+	return false
 }
 
 func findFunc(f *ast.File, recv, name string) *ast.FuncDecl {
@@ -1730,8 +1875,14 @@ func translateOpCentroid(fi fnInfo, fd *ast.FuncDecl) string {
 	resultType[fi.lean] = "centroid"
 	var body strings.Builder
 	t.block([]ast.Stmt{accDecl, clause.Body[n-2], clause.Body[n-1]}, "  ", "", &body)
-	return fmt.Sprintf("/-- %s: %s on a Polygon, below its range guard (the guard is not regenerated) -/\ndef %s_core (%s : %s) : Go.M %s := do\n%s",
+	core := fmt.Sprintf("/-- %s: %s on a Polygon, below its range guard -/\ndef %s_core (%s : %s) : Go.M %s := do\n%s\n",
 		fi.file, fi.name, fi.lean, g, t.leanType("Polygon"), t.leanType("centroid"), body.String())
+	// the Polygon case itself: the range guard, then the loop
+	t2 := &tr{fi: fi, vars: map[string]string{g: "Polygon"}, frozen: map[string]bool{}, guard: true}
+	var full strings.Builder
+	t2.block(clause.Body[:n-2], "  ", "pure (← "+fi.lean+"_core "+g+")", &full)
+	return core + fmt.Sprintf("/-- %s: %s on a Polygon (its call of itself inside the range guard is the function below the guard) -/\ndef %s (%s : %s) : Go.M %s := do\n%s",
+		fi.file, fi.name, fi.lean, g, t.leanType("Polygon"), t.leanType("centroid"), full.String())
 }
 
 func srcOf(n ast.Node) string {
@@ -1814,8 +1965,76 @@ func translateDps(fi fnInfo, fd *ast.FuncDecl, t *tr, hdr, params string, paramN
 		fi.file, fi.name, fi.lean, hdr, params, core.String(), fi.file, fi.name, fi.lean, hdr, params, gs)
 }
 
+// f(g geom.Geom) float64 { pre; switch g.(type) { case T: S … }; post } for the dynamic type T: pre; S; post with g a T
+func translateCase(fi fnInfo, fd *ast.FuncDecl) string {
+	T := strings.TrimPrefix(fi.ret, "case:")
+	t := &tr{fi: fi, vars: map[string]string{}, frozen: map[string]bool{}}
+	if fd.Recv != nil || len(fd.Type.Params.List) != 1 || len(fd.Type.Params.List[0].Names) != 1 || typeName(fd.Type.Params.List[0].Type) != "Geom" {
+		xfail("parameters")
+	}
+	g := fd.Type.Params.List[0].Names[0].Name
+	if fd.Type.Results == nil || len(fd.Type.Results.List) != 1 || len(fd.Type.Results.List[0].Names) != 0 || typeName(fd.Type.Results.List[0].Type) != "float64" {
+		xfail("result list")
+	}
+	var stmts []ast.Stmt
+	found := false
+	for _, s := range fd.Body.List {
+		sw, ok := s.(*ast.TypeSwitchStmt)
+		if !ok {
+			stmts = append(stmts, s)
+			continue
+		}
+		if found || sw.Init != nil {
+			xfail("two type switches")
+		}
+		found = true
+		es, ok := sw.Assign.(*ast.ExprStmt)
+		if !ok {
+			xfail("type switch that binds a variable")
+		}
+		if ta, ok := es.X.(*ast.TypeAssertExpr); !ok || ta.Type != nil || !isIdent(ta.X, g) {
+			xfail("type switch on something else than %s", g)
+		}
+		var clause *ast.CaseClause
+		for _, c := range sw.Body.List {
+			cc := c.(*ast.CaseClause)
+			for _, ty := range cc.List {
+				if typeName(ty) == T {
+					if clause != nil || len(cc.List) != 1 {
+						xfail("case %s is not a clause of its own", T)
+					}
+					clause = cc
+				}
+			}
+		}
+		if clause == nil {
+			xfail("no case %s", T)
+		}
+		if containsExit(clause.Body) {
+			xfail("return/break/fallthrough in case %s", T)
+		}
+		stmts = append(stmts, clause.Body...)
+	}
+	if !found {
+		xfail("no type switch")
+	}
+	t.vars[g] = T
+	resultType[fi.lean] = "float64"
+	paramTypes[fi.lean] = []string{T}
+	hdr := ""
+	if fi.rnum {
+		hdr = "{α : Type} [RNum α] "
+	}
+	var body strings.Builder
+	t.block(stmts, "  ", "", &body)
+	return fmt.Sprintf("/-- %s: %s, case %s of its type switch -/\ndef %s %s(%s : %s) : Go.M %s := do\n%s", fi.file, fi.name, T, fi.lean, hdr, g, t.leanType(T), t.leanType("float64"), body.String())
+}
+
 func translate(fi fnInfo, fd *ast.FuncDecl) (text string) {
 	renameKeywords(fd)
+	if strings.HasPrefix(fi.ret, "case:") {
+		return translateCase(fi, fd)
+	}
 	if fi.ret == "opcentroid" {
 		return translateOpCentroid(fi, fd)
 	}
@@ -1825,6 +2044,7 @@ func translate(fi fnInfo, fd *ast.FuncDecl) (text string) {
 	add := func(n, tn string) {
 		t.vars[n] = tn
 		params = append(params, "("+n+" : "+t.leanType(tn)+")")
+		paramTypes[fi.lean] = append(paramTypes[fi.lean], tn)
 	}
 	if fd.Recv != nil {
 		r := fd.Recv.List[0]
